@@ -29,6 +29,8 @@ def post_auto(sig, choice, cfg, args, r, log):
 
 def run(chk):
     chk.level = "proof"
+    from props import native_diff
+    native_diff.run(chk, "C06")
     from props import backend_conformance
     backend_conformance.run(chk, "C06", names=("solve", "solvetri", "cholesky", "inv", "lstsq", "lu", "slogdet", "eigh", "norm"))
     chk.assume("IterativeOperatorWInfo(A, alg) is given its idealised meaning M(A)^-1 (tol -> 0); the residual bound of CG/GMRES at a "
